@@ -227,8 +227,17 @@ def run(ctx):
         "that the extra constructor added for wrap_python struct classes leaves C/Fortran bytes unchanged (residual "
         "assumption of the design); per-declaration wrap flags inside the emitters; WrapFlags/PromoteWrap folds",
     ]
+    if ctx.tier != "thorough":
+        r = ctx.monitor("m_wrapsel", "search", 80, ctx.seed)
+        ctx.bounded.append({"monitor": "m_wrapsel", "inputs_tried": r["tried"], "violation": r["violation"],
+                            "kind": "all 12 admissible wrap flag combinations and directory assignments on a small library (classes, "
+                                    "overloads, struct, return_this method): off => no files, on => every declaration present, "
+                                    "lists == files written, Python/Lua switches leave C/Fortran bytes alone; per-declaration / "
+                                    "per-type / per-namespace switch-off (flattened or not)"})
+        if r["violation"]:
+            ctx.violation("bounded/m_wrapsel", {"inputs": r["inputs"], "observed": r["violation"]}, True)
     if ctx.tier == "thorough":
-        r = ctx.monitor("m_wrapsel", "search", 40, ctx.seed)
+        r = ctx.monitor("m_wrapsel", "search", 80, ctx.seed)
         ctx.bounded.append({"monitor": "m_wrapsel", "inputs_tried": r["tried"], "violation": r["violation"],
                             "kind": "all 12 admissible wrap flag combinations and two directory assignments on a small library"})
         if r["violation"]:
